@@ -9,15 +9,23 @@ CORE = [R + f for f in (
     "umem_alloc.c", "umem_pool.c", "ubuf_block_mem.c", "ubuf_mem.c", "ubuf_mem_common.c",
     "ubuf_pic_mem.c", "ubuf_pic_common.c", "ubuf_pic.c", "ubuf_sound_mem.c", "ubuf_sound_common.c",
     "udict_inline.c", "uref_std.c", "upump_common.c", "uprobe.c", "uprobe_stdio.c", "uprobe_prefix.c",
-    "uprobe_ubuf_mem.c", "uprobe_uref_mgr.c", "uprobe_uclock.c", "uprobe_upump_mgr.c", "uprobe_output.c",
-    "ustring.c", "uuri.c", "uref_uri.c", "uref_pic_flow.c", "uref_sound_flow.c", "upipe_dump.c",
+    "uprobe_ubuf_mem.c", "uprobe_uref_mgr.c", "uprobe_uclock.c", "uprobe_upump_mgr.c",
+    "ustring.c", "uuri.c", "uref_uri.c", "uref_pic_flow.c", "upipe_dump.c",
     "ucookie.c", "uprobe_ubuf_mem_pool.c", "uprobe_loglevel.c", "uprobe_transfer.c", "uprobe_select_flows.c",
-    "uclock_std.c", "udict_dump.c", "uprobe_dejitter.c", "uprobe_syslog.c", "ubuf_pic_clear.c", "uprobe_source_mgr.c",
+    "uclock_std.c", "uprobe_dejitter.c", "uprobe_syslog.c", "uprobe_source_mgr.c",
 )]
+
+MODS = [M + f for f in (
+    "upipe_idem.c", "upipe_dup.c", "upipe_setattr.c", "upipe_setflowdef.c", "upipe_probe_uref.c", "upipe_skip.c", "upipe_htons.c",
+    "upipe_delay.c", "upipe_match_attr.c", "upipe_null.c", "upipe_queue_sink.c", "upipe_queue_source.c", "upipe_queue.c",
+    "upipe_aggregate.c", "upipe_chunk_stream.c", "upipe_time_limit.c", "upipe_genaux.c", "upipe_buffer.c", "upipe_rate_limit.c",
+)]
+PIPEX = CORE + MODS + [E + "vmock_upump.c", E + "simfd.c"]
 
 BLK = [R + "umem_alloc.c", R + "ubuf_block_mem.c", R + "ubuf_mem_common.c"]
 VS = [E + "vsched.c"]
 HARNESSES = {
+    "pipex_cat": {"src": [H + "pipex_cat.c"] + PIPEX},
     "c07_lin": {"src": [H + "c07_lin.c"] + VS},
     "c19_window": {"src": [H + "c19_window.c", R + "ubuf_mem_common.c", R + "ubuf_mem.c", R + "ubuf_pic_mem.c", R + "ubuf_pic_common.c", R + "ubuf_pic.c",
                            R + "ubuf_sound_mem.c", R + "ubuf_sound_common.c", R + "ubuf_block_mem.c", R + "uref_pic_flow.c", R + "udict_inline.c",
